@@ -138,10 +138,32 @@ def record(cfg):
         return r
 
     def w_sd(self):
-        ev(self.sim.ti)['died'] = True
+        e = ev(self.sim.ti)
+        e['died'] = True
+        e['background_before_die'] = list(e['background'])
         return o_sd(self)
 
+    Sim = type(sim)
+    o_fs = Sim.finish_step
+    snaps = [dict(ti=None, n_ids=int(ppl.uid.len_used), alive=np.array(ppl.alive.raw[:ppl.uid.len_used], dtype=bool), active=set(au))]
+    SNAPS[0] = snaps
+
+    def w_fs(self):
+        p = self.people
+        n = int(p.uid.len_used)
+        snaps.append(dict(ti=int(self.ti), n_ids=n, alive=np.array(p.alive.raw[:n], dtype=bool), active=set(int(u) for u in p.auids)))
+        return o_fs(self)
+
     SIR.set_prognoses, SIR.step_state, People.request_death, People.grow, People.step_die = w_sp, w_ss, w_rd, w_grow, w_sd
+    # the loop's plan holds bound methods taken at init: the scheduled functions are wrapped in the plan itself
+    plan = sim.loop.plan
+    for k in range(len(plan)):
+        f = plan.func[k]
+        fn, owner = getattr(f, '__func__', None), getattr(f, '__self__', None)
+        if fn is o_fs and owner is sim:
+            plan.at[k, 'func'] = (lambda: w_fs(sim))
+        elif fn is o_sd and owner is ppl:
+            plan.at[k, 'func'] = (lambda: w_sd(ppl))
     try:
         sim.run()
     finally:
@@ -211,6 +233,37 @@ def compare(cfg, out, init_lines, events, sim):
     return diffs
 
 
+SNAPS = [None]   # per-step snapshots of the last `record` call (identifier count, alive flags, active set at the end of each step)
+
+
+def life_statements(snaps, events):
+    """ C10_composed_dense_ids / _death_permanent / _active_alive / _request_same_step (Lemmas/SimCoreLife.lean) evaluated on
+        the end-of-step snapshots of the real run """
+    bad = []
+    for prev, cur in zip(snaps, snaps[1:]):
+        ti = cur['ti']
+        e = events.get(ti, {})
+        b = e.get('births', 0)
+        if cur['n_ids'] != prev['n_ids'] + b:
+            bad.append(f"step {ti}: {prev['n_ids']} identifiers before, {b} agents created, {cur['n_ids']} identifiers after")
+        n = min(prev['n_ids'], cur['n_ids'])
+        back = np.flatnonzero(~prev['alive'][:n] & cur['alive'][:n])
+        if len(back):
+            bad.append(f"step {ti}: agent {int(back[0])} was dead at the end of the previous step and is alive again")
+        ret = sorted(u for u in cur['active'] if u < prev['n_ids'] and u not in prev['active'])
+        if ret:
+            bad.append(f"step {ti}: agent {ret[0]} had been removed from the active set and is active again")
+        zombies = sorted(u for u in cur['active'] if u < cur['n_ids'] and not cur['alive'][u])
+        if zombies:
+            bad.append(f"step {ti}: agent {zombies[0]} is in the active set at the end of the step but is not alive")
+        for u in e.get('background_before_die', []):
+            if (u in prev['active'] or prev['n_ids'] <= u < cur['n_ids']) and (u in cur['active'] or cur['alive'][u]):
+                bad.append(f"step {ti}: death of active agent {u} was requested before deaths were resolved, but at the end of the step "
+                           f"alive={bool(cur['alive'][u])}, active={u in cur['active']}")
+                break
+    return bad
+
+
 def real_statements(sim, events=None, n_active0=None):
     """ the theorems' statements evaluated on the real results alone: C13_run_rows_balanced and C10_composed_run_balance """
     bad = []
@@ -234,7 +287,8 @@ def run_cfg(ctx, cfg):
         lines.append(step_line(events.get(ti, dict(births=0, background=[], calls=[]))))
     lines.append('dump')
     out = ctx.drive(DRIVER, lines)
-    return compare(cfg, out, init_lines, events, sim), real_statements(sim, events, n_active0 if late == 0 else None), dict(steps=nsteps, agents=len(init_lines) - 1,
+    snaps = SNAPS[0]
+    return compare(cfg, out, init_lines, events, sim), real_statements(sim, events, n_active0 if late == 0 else None) + life_statements(snaps, events), dict(steps=nsteps, agents=len(init_lines) - 1,
         infections=sum(len(c) for e in events.values() for c in e['calls']), background=sum(len(e['background']) for e in events.values()),
         births=sum(e['births'] for e in events.values()), late=late)
 
@@ -265,6 +319,6 @@ def correspond(ctx):
 
 def replay(ctx, data):
     _, events, sim, late, n0 = record(data['cfg'])
-    bad = real_statements(sim, events, n0 if late == 0 else None)
+    bad = real_statements(sim, events, n0 if late == 0 else None) + life_statements(SNAPS[0], events)
     for b in bad[:2]: print('  ' + b)
     return bool(bad)
